@@ -4,7 +4,7 @@ manifest can never drift from what ./run supports)."""
 import json, subprocess, os
 
 HOOK_COMMITS = ["61b94ce", "8f421be"]
-FIX_COMMITS = ["a51fb22", "b0c8ea5", "98c1f4b", "e663d4c", "32aebe9", "fc86303", "229945c", "8af08bf", "4e6926f", "9fa7532", "bf2b0b5", "e42a3ea", "0c3e286", "bea63fc"]
+FIX_COMMITS = ["a51fb22", "b0c8ea5", "98c1f4b", "e663d4c", "32aebe9", "fc86303", "229945c", "8af08bf", "265bffc", "2d1a4cc", "4e6926f", "9fa7532", "bf2b0b5", "e42a3ea", "0c3e286", "bea63fc"]
 
 # id -> (engine, category, technique, text, note, design_ref)
 CHECKS = {}
@@ -106,6 +106,22 @@ add("C17", "E", "exploration",
     "Trusted: independent encoder and tick/position reference from doc/teehistorian.md; cfg(libtw2_verif) re-export of the incremental reader.",
     "DESIGN.md 3/C17")
 
+add("C14", "E", "exploration",
+    "bounded exhaustive enumeration of canonical encodings built by an independent interpreter of the protocol descriptions (every codec x boundary values per member, singly and in pairs) against the generated codecs",
+    "For the four (description, crate) pairs every system/game/connless message and snapshot object (~410 codecs): baseline + every member swept over the boundaries of its declared type singly and in pairs (thorough: triples); accepted by the description => decodes without warnings and re-encodes identically; violated constraint => rejected; truncations, excess words, all byte strings of length <=2 after every message id => value or error, no panic.",
+    "Trusted: the interpreter's per-kind wire conventions (varint, NUL-terminated string, length-prefixed data, 32-bit object words); flags and invalid-optional cases are not judged. Known findings: four snapshot objects with boolean members re-expose padding bytes.",
+    "DESIGN.md 3/C14")
+add("C18", "E", "exploration",
+    "bounded exhaustive enumeration of datagram field values and of part orders (all sequences up to parts+2 for <= 4 parts; listed permutation families beyond)",
+    "Each of the thirteen response kinds with every numeric field set to 25 boundary/garbage values, truncations, client counts / offsets / packet numbers around 16, 24 and 64; multi-part infos of servers with N clients merged in every order with every duplication for <= 4 parts against a 'set of parts seen' reference: complete exactly when every part was seen, every client exactly once.",
+    "Trusted: datagrams built from doc/serverinfo_extended.md and the legacy 64-player layout; parts come from a consistent server.",
+    "DESIGN.md 3/C18")
+add("C19", "E", "exploration",
+    "bounded exhaustive enumeration of operation sequences x backing stores against a Vec-with-capacity model; Miri and AddressSanitizer as monitors on the enumerated executions",
+    "All sequences of <= 3/4 operations (writes, extends, reader fills, nested views, early exit) x take/drop on 83 backing-store configurations (Vec, ArrayVec, slice, slice reference, capped views with every cap) compared with a reference model incl. canaries; the same enumerator under Miri; thorough: this and the C05/C06/C07/C11/C16/C17 enumerators in an AddressSanitizer build.",
+    "Trusted: Miri (stacked borrows disabled: the property is about out-of-bounds/use-after-free, not the aliasing model) and ASan as run-time monitors; C/C++ reference libraries and std are not instrumented.",
+    "DESIGN.md 3/C19")
+
 NOT_YET = {}
 
 def main():
@@ -131,7 +147,7 @@ def main():
             na.append({"property_id": id, "reason": NOT_YET.get(id, "check not built yet in this round (planned, see DESIGN.md section 3); not claimed until it runs")})
     m = {
         "version": 1,
-        "setup_cmd": "cd /verif/harness && CARGO_NET_OFFLINE=true cargo build --release --offline --workspace",
+        "setup_cmd": "cd /verif/harness && CARGO_NET_OFFLINE=true cargo build --release --offline --workspace && (CARGO_TARGET_DIR=/verif/target-miri MIRIFLAGS=-Zmiri-disable-stacked-borrows cargo +nightly miri run --offline -p vp-buffer-pure --bin buffer_enum -- 0 >/dev/null 2>&1 || true)",
         "hooks": {
             "guard": "libtw2_verif",
             "enable": "RUSTFLAGS=--cfg libtw2_verif (set in /verif/harness/.cargo/config.toml; the harness path-depends on /repo crates)",
